@@ -175,7 +175,13 @@ fn case<const D: usize>(ctx: &Ctx, out: &mut Out, cs: u64) {
                 let mut rp = replay.clone();
                 rp["constructor"] = json!(ctor);
                 rp["failures"] = json!(cert.summary());
-                tri::report_cert(out, P, &format!("D{}/{}/{:?}", D, ctor_class(ctor), b.guarantee), &cert, rp);
+                // magnitude class of the input: the predicates' tolerance grows linearly with the
+                // coordinates, the rounding error of a determinant with their D-th power, so far from unit
+                // scale exactly degenerate input is no longer recognised (recorded finding); unit-scale
+                // signatures stay as they are
+                let maxabs = inp.iter().flat_map(|i| i.p.iter().map(|x| x.abs())).fold(0.0f64, f64::max);
+                let scale = if maxabs > 1e6 { "/scale-huge" } else if maxabs < 1e-3 { "/scale-tiny" } else { "" };
+                tri::report_cert(out, P, &format!("D{}/{}/{:?}{}", D, ctor_class(ctor), b.guarantee, scale), &cert, rp);
             }
             if !b.lib_validate_ok {
                 out.count("lib_validate_rejects_own_result");
